@@ -1,11 +1,13 @@
 package clientsim
 
 import (
+	"bufio"
 	"context"
 	"errors"
 	"fmt"
 	"io"
 	"regexp"
+	"strings"
 	"testing"
 
 	sse "github.com/tmaxmax/go-sse"
@@ -72,6 +74,9 @@ func genAttempt(t *rapid.T, allowCtxEnd bool) Attempt {
 	if (a.Kind == "neterr" || a.End == "err") && stats.Pct(t, "foreignctxerr") < 30 {
 		a.ErrKind = stats.From(t, []string{"deadline", "canceled"}, "errkind")
 	}
+	if a.End == "err" && a.ErrKind == "" && stats.Pct(t, "wrapseof") < 25 {
+		a.ErrKind = "wraps-eof"
+	}
 	return a
 }
 
@@ -92,6 +97,26 @@ func genC11(t *rapid.T) Script {
 	if stats.Pct(t, "cancelinwait") < 12 {
 		sc.CancelInWait = 1 + stats.Pick(t, 3, "cancelinwaitk")
 	}
+	if stats.Pct(t, "smallbuffer") < 15 {
+		// a small scanner buffer and streams of small events with at most one oversized event:
+		// a stream that ends with bufio.ErrTooLong is an ordinary (retryable) end of a connection
+		sc.BufMax = 48
+		for i := range sc.Attempts {
+			if sc.Attempts[i].Kind != "stream" {
+				continue
+			}
+			var b strings.Builder
+			n := stats.Pick(t, 5, "nsmall")
+			big := stats.Pick(t, n+2, "bigat")
+			for k := 0; k <= n; k++ {
+				if k == big {
+					b.WriteString("data: " + strings.Repeat("x", 70+stats.Pick(t, 60, "biglen")) + "\n\n")
+				}
+				b.WriteString(fmt.Sprintf("id: %d\ndata: e\n\n", k))
+			}
+			sc.Attempts[i].Stream = stats.B(b.String())
+		}
+	}
 	for _, a := range sc.Attempts {
 		if a.End == "deadline" {
 			sc.DeadlineMs = 3_600_000 // far beyond every scripted wait; only the hanging read reaches it
@@ -109,8 +134,15 @@ type expectation struct {
 	classes    []string
 }
 
-func streamCause(a Attempt) (cause string, fieldless, midline bool) {
+func streamCause(a Attempt, bufMax int) (cause string, fieldless, midline bool) {
 	ref := oracle.Interpret([]byte(a.Stream), "", oracle.Connection)
+	if bufMax > 0 {
+		for _, b := range ref.Blocks {
+			if b.End-b.Start > bufMax+8 {
+				return "toolong", false, false // the scanner gives up at this block, whatever follows
+			}
+		}
+	}
 	if len(ref.Blocks) > 0 {
 		last := ref.Blocks[len(ref.Blocks)-1]
 		if last.Event < 0 && !ref.UnexpectedEOF {
@@ -169,7 +201,7 @@ func expect(sc Script) expectation {
 			return e
 		default:
 			count = 0 // a successful connection resets the retry count
-			c, fieldless, midline := streamCause(a)
+			c, fieldless, midline := streamCause(a, sc.BufMax)
 			if fieldless {
 				e.nontrivial = true
 				e.classes = append(e.classes, "fieldless-last-block")
@@ -179,6 +211,9 @@ func expect(sc Script) expectation {
 				e.classes = append(e.classes, "error-or-cancel-in-mid-line")
 			}
 			e.classes = append(e.classes, "end:"+a.End)
+			if c == "toolong" {
+				e.classes = append(e.classes, "oversized-event")
+			}
 			if c == "ctx" {
 				e.final = "ctx"
 				return e
@@ -220,6 +255,10 @@ func classOf(err error, ctxErr error) []string {
 			out = append(out, "nogetbody")
 		case errors.Is(err, errGetBody):
 			out = append(out, "getbody")
+		case errors.Is(err, bufio.ErrTooLong):
+			out = append(out, "toolong")
+		case errors.Is(err, errBoomEOF):
+			out = append(out, "boomwraps-eof")
 		case errors.Is(err, errNet):
 			out = append(out, "net")
 		case errors.Is(err, errNetDeadline):
@@ -277,7 +316,7 @@ func checkC11(t *testing.T, sc Script) *stats.Verdict {
 	if exp.final == "ctx" {
 		ctxErr = tr.ctxErrAtEnd
 		if ctxErr == nil {
-			return v.Failf("", "harness: expected a done context at the end\n%s", desc())
+			return v.Failf("final:ctx", "Connect returned %v although its context is still alive and retries are not exhausted (the reference walk ends with the script's cancellation)\n%s", tr.final, desc())
 		}
 		if !errors.Is(ctxErr, context.Canceled) && !errors.Is(ctxErr, context.DeadlineExceeded) {
 			return v.Failf("", "harness: odd ctx error %v", ctxErr)
